@@ -80,6 +80,8 @@ var profiles = map[string]Profile{
 	"pose":   {"updatePose": 4, "entityAdd": 2, "entityDelete": 2, "join": 1.5},
 	"comp":   {"compAdd": 3, "compUpdate": 3, "compDelete": 3, "subscribe": 3, "unsubscribe": 3, "typeAdd": 2, "compList": 3, "entityDelete": 2},
 	"custom": {"custom": 8},
+	// subscriptions of every shape: senders that are subscribed themselves, all but one member subscribed, ...
+	"subs": {"subscribe": 8, "unsubscribe": 2, "compUpdate": 8, "compAdd": 5, "compDelete": 2, "typeAdd": 2, "entityAdd": 2, "join": 1.5},
 	// a session of more than 64 participants: addressed relays with repeated recipients, departures, arrivals
 	"crowd": {"custom": 10, "join": 0.3, "entityAdd": 0.5},
 	"join":   {"join": 5, "entityAdd": 1.5},
